@@ -8,6 +8,7 @@ package main
 
 import (
 	"fmt"
+	"math/big"
 
 	"github.com/btcsuite/btcd/blockchain"
 	"github.com/btcsuite/btcd/btcutil/v2"
@@ -33,11 +34,12 @@ const (
 	kHeaderFirst
 	kHeaderFirstReorg
 	kChildAfter
+	kReorgDeep
 )
 
 var kindNames = map[int]string{kTip: "tip", kReorg: "reorg", kDeferred: "deferred", kOrphan: "orphan", kTemplate: "template",
 	kReopen: "reopen", kFork: "fork", kForkBad: "fork-failed-reorg", kReopenReorg: "reopen-reorg", kReopenDeferred: "reopen-deferred",
-	kOrphanReorg: "orphan-reorg", kHeaderFirst: "header-first", kHeaderFirstReorg: "header-first-reorg", kChildAfter: "child-after"}
+	kOrphanReorg: "orphan-reorg", kHeaderFirst: "header-first", kHeaderFirstReorg: "header-first-reorg", kChildAfter: "child-after", kReorgDeep: "reorg-depth3"}
 
 const bigCache = 64 << 20
 
@@ -54,17 +56,6 @@ func (k ctxSpec) Name() string {
 	return kindNames[k.Kind] + "/" + c
 }
 
-func ctxByName(name string) (ctxSpec, bool) {
-	for kind := range kindNames {
-		for _, c := range []uint64{0, bigCache} {
-			if (ctxSpec{kind, c}).Name() == name {
-				return ctxSpec{kind, c}, true
-			}
-		}
-	}
-	return ctxSpec{}, false
-}
-
 // plan holds the filler blocks of a case (built once, shared by the contexts).
 type plan struct {
 	cs     *Case
@@ -72,6 +63,26 @@ type plan struct {
 	D      *lab.Blk   // child of the candidate
 	U      []*lab.Blk // unrelated fork (2 blocks) off an older ancestor
 	UBad   *lab.Blk   // invalid block on top of U (would have most work)
+	X      []*lab.Blk // three blocks competing with the parent's last three ancestors (deep reorganisation)
+	// skip: context kinds whose chain-work preconditions do not hold for this
+	// case (only in parameter sets where blocks carry different work)
+	skip map[int]bool
+}
+
+// workOf is the cumulative work of the chain ending at b.
+func workOf(b *lab.Blk) *big.Int {
+	sum := new(big.Int)
+	one := big.NewInt(1)
+	for n := b; n != nil && n.Parent != nil; n = n.Parent {
+		t, _, _ := refblock.DecodeCompact(n.Msg.Header.Bits)
+		if t.Sign() <= 0 {
+			continue
+		}
+		w := new(big.Int).Lsh(one, 256)
+		w.Div(w, new(big.Int).Add(t, one))
+		sum.Add(sum, w)
+	}
+	return sum
 }
 
 func mkPlan(cs *Case, idx int) *plan {
@@ -80,7 +91,32 @@ func mkPlan(cs *Case, idx int) *plan {
 	tag := uint32(0x200000 + idx*16)
 	P := cs.parent()
 	PP := P.Parent
-	pl.A1 = w.fillerOpt(PP, lab.BOpt{Name: cs.Key() + "/A1", Tag: tag + 1, Txs: cs.AltTxs, CoinbaseScript: cs.AltCoinbaseScript, CoinbaseOuts: cs.AltCoinbaseOuts})
+	altTxs := cs.AltTxs
+	if _, std := w.Outs["t9"]; std && altTxs == nil && cs.ParentH >= 4 {
+		// adversarial default: the competing branch spends the anyone-can-spend
+		// outputs the candidates use, so the candidate's branch view has to
+		// restore them when the main chain is rolled back
+		var ins []out
+		var total int64
+		for i := 0; i < 10; i++ {
+			o := w.Outs[fmt.Sprintf("t%d", i)]
+			ins = append(ins, o)
+			total += o.Value
+		}
+		altTxs = []*wire.MsgTx{spendTx(1, ins, 0xffffffff, []*wire.TxOut{txo(total, lab.OpTrue)}, 0)}
+	}
+	pl.A1 = w.fillerOpt(PP, lab.BOpt{Name: cs.Key() + "/A1", Tag: tag + 1, Txs: altTxs, CoinbaseScript: cs.AltCoinbaseScript, CoinbaseOuts: cs.AltCoinbaseOuts})
+	if cs.ParentH >= 4 {
+		x := w.at(cs.ParentH - 3)
+		for i := 0; i < 3; i++ {
+			var t []*wire.MsgTx
+			if i == 0 && x.Height >= 3 {
+				t = altTxs
+			}
+			x = w.fillerOpt(x, lab.BOpt{Name: fmt.Sprintf("%s/X%d", cs.Key(), i+1), Tag: tag + 12 + uint32(i), Txs: t})
+			pl.X = append(pl.X, x)
+		}
+	}
 	pl.A2 = w.filler(pl.A1, cs.Key()+"/A2", tag+2, nil, 0)
 	pl.D = w.filler(cs.Cand, cs.Key()+"/D", tag+3, nil, 0)
 	uh := cs.ParentH - 2
@@ -98,6 +134,30 @@ func mkPlan(cs *Case, idx int) *plan {
 		pl.U = append(pl.U, top)
 	}
 	pl.UBad = w.filler(top, cs.Key()+"/Ubad", tag+15, nil, 1) // coinbase pays 1 satoshi too much
+	// chain-work preconditions of the context shapes
+	pl.skip = map[int]bool{}
+	wP, wC, wD := workOf(P), workOf(cs.Cand), workOf(pl.D)
+	wA1, wA2 := workOf(pl.A1), workOf(pl.A2)
+	if !(wP.Cmp(wA1) <= 0 && wC.Cmp(wA1) > 0) {
+		for _, k := range []int{kReorg, kReopenReorg, kOrphanReorg, kHeaderFirstReorg} {
+			pl.skip[k] = true
+		}
+	}
+	if !(wP.Cmp(wA2) <= 0 && wC.Cmp(wA2) <= 0 && wD.Cmp(wA2) > 0) {
+		pl.skip[kDeferred], pl.skip[kReopenDeferred] = true, true
+	}
+	if len(pl.X) != 3 || !(wP.Cmp(workOf(pl.X[2])) <= 0 && wC.Cmp(workOf(pl.X[2])) > 0) {
+		pl.skip[kReorgDeep] = true
+	}
+	okU := workOf(pl.UBad).Cmp(wP) > 0
+	for _, u := range pl.U {
+		if workOf(u).Cmp(workOf(w.at(min32(u.Height, cs.ParentH)))) > 0 {
+			okU = false
+		}
+	}
+	if !okU {
+		pl.skip[kFork], pl.skip[kForkBad] = true, true
+	}
 	return pl
 }
 
@@ -191,6 +251,13 @@ func (d *driver) settle(cs *Case, wantBest *lab.Blk, wantCandOnMain bool, checkC
 	if active != 1 {
 		d.failf("ChainTips reports %d active tips", active)
 	}
+}
+
+func min32(a, b int32) int32 {
+	if a < b {
+		return a
+	}
+	return b
 }
 
 func short(h chainhash.Hash) string { return h.String()[:12] }
@@ -353,6 +420,25 @@ func runContext(pl *plan, k ctxSpec) (res result) {
 			d.settle(cs, cs.Cand, true, true)
 		} else {
 			d.settle(cs, pl.A1, false, true)
+		}
+
+	case kReorgDeep:
+		// main: base[:n-3] + X1 X2 X3; side: the parent's last three ancestors
+		// (incl. the parent); the candidate then forces a 3-deep reorganisation
+		for _, b := range base[:n-3] {
+			d.valid(b, true)
+		}
+		for _, x := range pl.X {
+			d.valid(x, true)
+		}
+		for _, b := range base[n-3:] {
+			d.valid(b, false)
+		}
+		cand(false)
+		if valid {
+			d.settle(cs, cs.Cand, true, true)
+		} else {
+			d.settle(cs, pl.X[2], false, true)
 		}
 
 	case kReorg, kReopenReorg, kOrphanReorg:
